@@ -193,5 +193,16 @@ func corpus() []*Case {
 		b.add(false, T0, T1).add(false, T1b).head(0, st(1, 1, 10000000-4210000), T0)
 		out = append(out, b.done("replacement unaffordable after the earlier nonce is mined"))
 	}
+	// known finding validate:rejected-tx-evicted-pooled:pool-full:chainid -- a full pool, then a
+	// transaction signed for another chain id that pays more than the cheapest pooled one
+	{
+		cfg := wide
+		cfg.GlobalSlots, cfg.GlobalQueue = 1, 1
+		b := newCB(cfg, st(1, 0, rich, 0, rich))
+		b.add(false, tx(1, 0, 2), tx(1, 2, 3))
+		b.c.Ops = append(b.c.Ops, OpJS{K: "bad", Bad: "chainid"})
+		b.c.Kind = "limit" // the pool-full branch is outside the model
+		out = append(out, b.done("full pool, refused transaction of another chain id evicts"))
+	}
 	return out
 }
